@@ -216,3 +216,15 @@ func genTree(r *common.Rng, depth int, dist map[string]int) *T {
 	}
 	return t
 }
+
+// corpusStrings: witnesses of the theorems and of the known findings, probed in
+// every context on every run.
+var corpusStrings = []string{
+	"\n", "\n\n", "a\n", "a\n\n", "\na", "\n a", "\n a\nb", " a\nb", "a\n b", "a \nb", "a\nb ", "\n\ta", "\n\ta\nb", "\n\t\nb", "a\n\tb",
+	"...", "... x", "...a", "....", "---", "--- x", "---a", "a...", "a<<", "<<", "<<a", "a<< ", "?", "? a", "? \n", "? \r", "?a",
+	"\u00a0", "#\u00a0", "a: b\u00a0", "\ufeff", "- \ufeff", "\U000e0001 ", "'\u200b",
+	"\"\"", "\"\"a", "\"\"#", "a\"\"", "\"",
+	"yes", "Yes", "on", "y", "n", "true", "null", "~", ".inf", ".Nan", "1", "1.5", "1e3", "0x1F", "0o7", "017", "08", "1_000", "1:30", "2001-12-14",
+	"", " ", "\t", "a b", "a: b", "a #b", "a#b", "-", "- a", "-a", ":", "a:", ":a", "#", "'", "''", "a'b", "\\", "a\\b",
+	"\x00", "\x01", "\x7f", "\u0085", "\u2028", "\U0001F600", "é", "\r", "\r\n",
+}
